@@ -64,6 +64,24 @@ theorem afterCompact_acc (a : Acc) (lvl : Nat) (f o k : Bool) :
     ((a.afterCompact lvl f o k).oddConst = false → a.oddConst = false ∧ o = false) := by
   cases f <;> simp [Acc.afterCompact, Acc.draw]
 
+theorem drawIf_acc (a : Acc) (b : Bool) (lvl : Nat) :
+    a.lv <+: (a.drawIf b lvl).lv ∧ (a.drawIf b lvl).coins = a.coins ∧
+    (a.lv.length = a.used → (a.drawIf b lvl).lv.length = (a.drawIf b lvl).used) ∧
+    (a.drawIf b lvl).oddConst = a.oddConst ∧ (b = true → (a.drawIf b lvl).lv = a.lv ++ [lvl]) ∧ (b = false → a.drawIf b lvl = a) := by
+  cases b <;> simp [Acc.drawIf, Acc.draw]
+
+theorem growDraw_acc (T : Tun) (a : Acc) (top : Bool) (lvl : Nat) :
+    a.lv <+: (a.growDraw T top lvl).lv ∧ (a.growDraw T top lvl).coins = a.coins ∧
+    (a.lv.length = a.used → (a.growDraw T top lvl).lv.length = (a.growDraw T top lvl).used) ∧
+    (a.growDraw T top lvl).oddConst = a.oddConst ∧
+    (top = true → T.initCoinRandom = true → (a.growDraw T top lvl).lv = a.lv ++ [lvl]) := by
+  unfold Acc.growDraw
+  cases top
+  · simp
+  · have := drawIf_acc a T.initCoinRandom lvl
+    simp only [if_true]
+    exact ⟨this.1, this.2.1, this.2.2.1, this.2.2.2.1, fun _ h => this.2.2.2.2.1 h⟩
+
 theorem compressLoop_acc (T : Tun) (F : SecFns ρ) (hra : Bool) (k : Nat) :
     ∀ (fuel h : Nat) (todo : List (Compactor ρ)) (ctr : Ctr) (acc : Acc),
       acc.lv <+: (compressLoop T F hra k fuel h todo ctr acc).2.2.lv ∧
@@ -80,13 +98,15 @@ theorem compressLoop_acc (T : Tun) (F : SecFns ρ) (hra : Bool) (k : Nat) :
     | cons c rest =>
       simp only [compressLoop]
       split
-      · generalize (sortIf0 h c).compact T F (nextOf T F hra k h rest) acc.peek = r
-        have a := afterCompact_acc acc (sortIf0 h c).lgWeight r.fresh r.oddConst r.rangeOk
+      · generalize (sortIf0 h c).compact T F (nextOf T F hra k h rest acc.peek) (acc.growDraw T rest.isEmpty (h + 1)).peek = r
+        have g := growDraw_acc T acc rest.isEmpty (h + 1)
+        have a := afterCompact_acc (acc.growDraw T rest.isEmpty (h + 1)) (sortIf0 h c).lgWeight r.fresh r.oddConst r.rangeOk
         split
-        · exact ⟨a.1, a.2.1, a.2.2.1, fun h => (a.2.2.2 h).1⟩
-        · have b := ih (h + 1) (r.nxt :: rest.tail) (ctrAfter (ctrGrow T ctr rest.isEmpty (nextOf T F hra k h rest)) r)
-            (acc.afterCompact (sortIf0 h c).lgWeight r.fresh r.oddConst r.rangeOk)
-          exact ⟨a.1.trans b.1, b.2.1.trans a.2.1, fun hl => b.2.2.1 (a.2.2.1 hl), fun h => (a.2.2.2 (b.2.2.2 h)).1⟩
+        · exact ⟨g.1.trans a.1, a.2.1.trans g.2.1, fun hl => a.2.2.1 (g.2.2.1 hl), fun h => by rw [← g.2.2.2.1]; exact (a.2.2.2 h).1⟩
+        · have b := ih (h + 1) (r.nxt :: rest.tail) (ctrAfter (ctrGrow T ctr rest.isEmpty (nextOf T F hra k h rest acc.peek)) r)
+            ((acc.growDraw T rest.isEmpty (h + 1)).afterCompact (sortIf0 h c).lgWeight r.fresh r.oddConst r.rangeOk)
+          exact ⟨g.1.trans (a.1.trans b.1), b.2.1.trans (a.2.1.trans g.2.1), fun hl => b.2.2.1 (a.2.2.1 (g.2.2.1 hl)),
+            fun h => by rw [← g.2.2.2.1]; exact (a.2.2.2 (b.2.2.2 h)).1⟩
       · exact ih (h + 1) rest ctr acc
 
 /-! ### the compress loop in two runs -/
@@ -96,16 +116,32 @@ theorem sortIf0_CRel {hh : Option Nat} (h : Nat) {c c' : Compactor ρ} (r : CRel
   · exact sort_CRel r
   · exact r
 
-theorem nextOf_CRel {hh : Option Nat} (T : Tun) (F : SecFns ρ) (hra : Bool) (k h : Nat) {rest rest' : List (Compactor ρ)}
-    (r : CsRel hh rest rest') : CRel hh (nextOf T F hra k h rest) (nextOf T F hra k h rest') ∧ CsRel hh rest.tail rest'.tail ∧
+theorem nextOf_CRel {hh : Option Nat} (T : Tun) (F : SecFns ρ) (hra : Bool) (k h : Nat) {rest rest' : List (Compactor ρ)} (d d' : Bool)
+    (r : CsRel hh rest rest')
+    (h1 : ∀ h0, hh = some h0 → h + 1 < h0 → rest = [] → T.initCoinRandom = true → d' = d)
+    (h2 : ∀ h0, hh = some h0 → h + 1 = h0 → rest = [] → T.initCoinRandom = true → d' = !d) :
+    CRel hh (nextOf T F hra k h rest d) (nextOf T F hra k h rest' d') ∧ CsRel hh rest.tail rest'.tail ∧
       rest'.isEmpty = rest.isEmpty := by
   cases rest with
   | nil => cases rest' with
-    | nil => exact ⟨mk'_CRel T F hh hra (h + 1) k, trivial, rfl⟩
+    | nil => exact ⟨mk'_CRel T F hh hra (h + 1) k d d' (fun h0 e hl hf => h1 h0 e hl rfl hf) (fun h0 e hl hf => h2 h0 e hl rfl hf), trivial, rfl⟩
     | cons _ _ => exact absurd r (by simp [CsRel])
   | cons x t => cases rest' with
     | nil => exact absurd r (by simp [CsRel])
     | cons y t' => exact ⟨r.1, r.2, rfl⟩
+
+theorem drawIf_AccRel {L : List Nat} {hh : Option Nat} {a a' : Acc} (b : Bool) (lvl : Nat) (r : AccRel L hh a a') :
+    AccRel L hh (a.drawIf b lvl) (a'.drawIf b lvl) := by
+  cases b
+  · exact r
+  · exact ⟨by simp [Acc.drawIf, Acc.draw, r.used], by simp [Acc.drawIf, Acc.draw, r.lv], by simp [Acc.drawIf, Acc.draw, r.oddConst],
+      by simp [Acc.drawIf, Acc.draw, r.throws], by simp [Acc.drawIf, Acc.draw, r.lvlen], r.coins⟩
+
+theorem growDraw_AccRel {L : List Nat} {hh : Option Nat} {a a' : Acc} (T : Tun) (top : Bool) (lvl : Nat) (r : AccRel L hh a a') :
+    AccRel L hh (a.growDraw T top lvl) (a'.growDraw T top lvl) := by
+  unfold Acc.growDraw; cases top
+  · exact r
+  · exact drawIf_AccRel _ _ r
 
 theorem afterCompact_AccRel {L : List Nat} {hh : Option Nat} {a a' : Acc} (lvl : Nat) (f o k : Bool) (r : AccRel L hh a a') :
     AccRel L hh (a.afterCompact lvl f o k) (a'.afterCompact lvl f o k) := by
@@ -115,20 +151,21 @@ theorem afterCompact_AccRel {L : List Nat} {hh : Option Nat} {a a' : Acc} (lvl :
       by simp [Acc.afterCompact, Acc.draw, r.oddConst], by simp [Acc.afterCompact, Acc.draw, r.throws],
       by simp [Acc.afterCompact, Acc.draw, r.lvlen], r.coins⟩
 
-theorem nextOf_lg {T : Tun} (F : SecFns ρ) {hra : Bool} (k h : Nat) (rest : List (Compactor ρ)) (hinv : CsInv T hra (h + 1) rest) :
-    (nextOf T F hra k h rest).lgWeight = h + 1 := by
+theorem nextOf_lg {T : Tun} (F : SecFns ρ) {hra : Bool} (k h : Nat) (rest : List (Compactor ρ)) (d : Bool) (hinv : CsInv T hra (h + 1) rest) :
+    (nextOf T F hra k h rest d).lgWeight = h + 1 := by
   cases rest with
-  | nil => rfl
+  | nil => exact (mkC_fields T F hra (h + 1) k d).2.2.1
   | cons x t => exact hinv.1.lg
 
-theorem bal_nextOf {hh : Option Nat} (T : Tun) (F : SecFns ρ) (hra : Bool) (k h : Nat) {rest rest' : List (Compactor ρ)}
+theorem bal_nextOf {hh : Option Nat} (T : Tun) (F : SecFns ρ) (hra : Bool) (k h : Nat) {rest rest' : List (Compactor ρ)} (d d' : Bool)
     (r : CsRel hh rest rest') (p : Int → Bool) (h0 : Nat) :
-    balL p h0 rest rest' = headL p h0 (nextOf T F hra k h rest) (nextOf T F hra k h rest') + balL p h0 rest.tail rest'.tail ∧
-    balR p h0 rest = headR p h0 (nextOf T F hra k h rest) + balR p h0 rest.tail := by
+    balL p h0 rest rest' = headL p h0 (nextOf T F hra k h rest d) (nextOf T F hra k h rest' d') + balL p h0 rest.tail rest'.tail ∧
+    balR p h0 rest = headR p h0 (nextOf T F hra k h rest d) + balR p h0 rest.tail := by
   cases rest with
   | nil => cases rest' with
     | nil =>
-      have := heads_mk' p h0 T F hra (h + 1) k
+      have := heads_empty p h0 (Compactor.mkC T F hra (h + 1) k d) (Compactor.mkC T F hra (h + 1) k d')
+        (mkC_fields T F hra (h + 1) k d).1 (mkC_fields T F hra (h + 1) k d).2.1 (mkC_fields T F hra (h + 1) k d').2.1
       simp only [nextOf, balL, balR, List.tail_nil, this.1, this.2, and_self]
     | cons _ _ => exact absurd r (by simp [CsRel])
   | cons x t => cases rest' with
@@ -167,7 +204,9 @@ theorem compressLoop_rel {T : Tun} (hT : TunOK T) (F : SecFns ρ) (hra : Bool) (
           rw [if_pos hf, if_pos (hfull.2 hf)]
           simp only [Compactor.numItems, ge_iff_le] at hf
           have r1 := sortIf0_CRel h rc
-          obtain ⟨rnx, rtail, hemp⟩ := nextOf_CRel T F hra k h rrest
+          have hemp : rest'.isEmpty = rest.isEmpty := by
+            cases rest <;> cases rest' <;> simp_all [CsRel]
+          simp only [hemp]
           have hc1 : CInv T hra h (sortIf0 h c) := by unfold sortIf0; split; exact sort_CInv hc; exact hc
           have hl1 : (sortIf0 h c).items.length = c.items.length := by unfold sortIf0; split; exact sort_length c; rfl
           have hcap1 : (sortIf0 h c).nomCap T = c.nomCap T := by unfold sortIf0; split; exact sort_nomCap T c; rfl
@@ -175,71 +214,100 @@ theorem compressLoop_rel {T : Tun} (hT : TunOK T) (F : SecFns ρ) (hra : Bool) (
           simp only at rf
           obtain ⟨rf1, rf2, rf3, _, _, _⟩ := rf
           have hlg1 : (sortIf0 h c).lgWeight = h := hc1.lg
-          have hnl : (nextOf T F hra k h rest).lgWeight = (sortIf0 h c).lgWeight + 1 := by rw [hlg1]; exact nextOf_lg F k h rest hrest
-          -- the coins the two runs would draw
-          have hpeek' : acc'.peek = acc'.coins acc.used := by simp [Acc.peek, ha.used]
-          -- is a coin drawn? then its level is the next entry of the trace
+          have hnl : (nextOf T F hra k h rest acc.peek).lgWeight = (sortIf0 h c).lgWeight + 1 := by rw [hlg1]; exact nextOf_lg F k h rest acc.peek hrest
           have hs1 : Sorted (sortIf0 h c).items := by
             unfold sortIf0; split
             · exact sort_sorted hc
             · rename_i h0; exact hc.srt (Or.inl h0)
-          have hnxI : CInv T hra (h + 1) (nextOf T F hra k h rest) ∧ CsInv T hra (h + 1 + 1) rest.tail := by
+          have hnxI : CInv T hra (h + 1) (nextOf T F hra k h rest acc.peek) ∧ CsInv T hra (h + 1 + 1) rest.tail := by
             cases rest with
-            | nil => exact ⟨mk'_CInv hT F hra (h + 1) k hk, trivial⟩
+            | nil => exact ⟨mkC_CInv hT F hra (h + 1) k hk acc.peek, trivial⟩
             | cons x t => exact ⟨hrest.1, hrest.2⟩
-          have sp := compact_spec hT F acc.peek hc1 hs1 hnxI.1 (by rw [hcap1, hl1]; exact hf)
-          have hd : ¬ (sortIf0 h c).state % 2 = 1 → L[acc.used]? = some h := by
+          -- the coin cursor of run 1 through grow() and compact()
+          have g := growDraw_acc T acc rest.isEmpty (h + 1)
+          have rA1 : AccRel L hh (acc.growDraw T rest.isEmpty (h + 1)) (acc'.growDraw T rest.isEmpty (h + 1)) := growDraw_AccRel T _ _ ha
+          generalize hA1 : acc.growDraw T rest.isEmpty (h + 1) = A1 at g rA1 hL ⊢
+          generalize acc'.growDraw T rest.isEmpty (h + 1) = A1' at rA1 ⊢
+          have sp := compact_spec hT F A1.peek hc1 hs1 hnxI.1 (by rw [hcap1, hl1]; exact hf)
+          have hpre2 : (A1.afterCompact (sortIf0 h c).lgWeight ((sortIf0 h c).compact T F (nextOf T F hra k h rest acc.peek) A1.peek).fresh
+              ((sortIf0 h c).compact T F (nextOf T F hra k h rest acc.peek) A1.peek).oddConst
+              ((sortIf0 h c).compact T F (nextOf T F hra k h rest acc.peek) A1.peek).rangeOk).lv <+: L := by
+            split at hL
+            · exact hL
+            · have m := compressLoop_acc T F hra k fuel (h + 1)
+                (((sortIf0 h c).compact T F (nextOf T F hra k h rest acc.peek) A1.peek).nxt :: rest.tail)
+                (ctrAfter (ctrGrow T ctr rest.isEmpty (nextOf T F hra k h rest acc.peek)) ((sortIf0 h c).compact T F (nextOf T F hra k h rest acc.peek) A1.peek))
+                (A1.afterCompact (sortIf0 h c).lgWeight ((sortIf0 h c).compact T F (nextOf T F hra k h rest acc.peek) A1.peek).fresh
+                  ((sortIf0 h c).compact T F (nextOf T F hra k h rest acc.peek) A1.peek).oddConst ((sortIf0 h c).compact T F (nextOf T F hra k h rest acc.peek) A1.peek).rangeOk)
+              exact m.1.trans hL
+          have a := afterCompact_acc A1 (sortIf0 h c).lgWeight ((sortIf0 h c).compact T F (nextOf T F hra k h rest acc.peek) A1.peek).fresh
+              ((sortIf0 h c).compact T F (nextOf T F hra k h rest acc.peek) A1.peek).oddConst
+              ((sortIf0 h c).compact T F (nextOf T F hra k h rest acc.peek) A1.peek).rangeOk
+          have hA1pre : A1.lv <+: L := a.1.trans hpre2
+          have hA1len : A1.lv.length = A1.used := g.2.2.1 ha.lvlen
+          have hdg : rest = [] → T.initCoinRandom = true → L[acc.used]? = some (h + 1) := by
+            intro hr hfl
+            have : A1.lv = acc.lv ++ [h + 1] := g.2.2.2.2 (by rw [hr]; rfl) hfl
+            rw [← ha.lvlen]; exact prefix_get acc.lv (h + 1) L (by rw [← this]; exact hA1pre)
+          have hd : ¬ (sortIf0 h c).state % 2 = 1 → L[A1.used]? = some h := by
             intro hodd
-            have hfresh : ((sortIf0 h c).compact T F (nextOf T F hra k h rest) acc.peek).fresh = true := by
+            have hfresh : ((sortIf0 h c).compact T F (nextOf T F hra k h rest acc.peek) A1.peek).fresh = true := by
               simp [Compactor.compact, hodd]
-            have hpre : acc.lv ++ [h] <+: L := by
-              split at hL
-              · refine List.IsPrefix.trans ?_ hL
-                simp [Acc.afterCompact, hfresh, Acc.draw, hlg1]
-              · have m := compressLoop_acc T F hra k fuel (h + 1)
-                  (((sortIf0 h c).compact T F (nextOf T F hra k h rest) acc.peek).nxt :: rest.tail)
-                  (ctrAfter (ctrGrow T ctr rest.isEmpty (nextOf T F hra k h rest)) ((sortIf0 h c).compact T F (nextOf T F hra k h rest) acc.peek))
-                  (acc.afterCompact (sortIf0 h c).lgWeight ((sortIf0 h c).compact T F (nextOf T F hra k h rest) acc.peek).fresh
-                    ((sortIf0 h c).compact T F (nextOf T F hra k h rest) acc.peek).oddConst ((sortIf0 h c).compact T F (nextOf T F hra k h rest) acc.peek).rangeOk)
-                refine List.IsPrefix.trans ?_ (m.1.trans hL)
-                simp [Acc.afterCompact, hfresh, Acc.draw, hlg1]
-            rw [← ha.lvlen]; exact prefix_get acc.lv h L hpre
-          have hd1 : ∀ h0, hh = some h0 → (sortIf0 h c).lgWeight < h0 → ¬ (sortIf0 h c).state % 2 = 1 → acc'.peek = acc.peek := by
+            have : (A1.afterCompact (sortIf0 h c).lgWeight ((sortIf0 h c).compact T F (nextOf T F hra k h rest acc.peek) A1.peek).fresh
+              ((sortIf0 h c).compact T F (nextOf T F hra k h rest acc.peek) A1.peek).oddConst
+              ((sortIf0 h c).compact T F (nextOf T F hra k h rest acc.peek) A1.peek).rangeOk).lv = A1.lv ++ [h] := by
+              simp [Acc.afterCompact, hfresh, Acc.draw, hlg1]
+            rw [← hA1len]; exact prefix_get A1.lv h L (by rw [← this]; exact hpre2)
+          -- the coins the two runs draw
+          have hpeek' : acc'.peek = acc'.coins acc.used := by simp [Acc.peek, ha.used]
+          have hpeekA' : A1'.peek = A1'.coins A1.used := by simp [Acc.peek, rA1.used]
+          have hn1 : ∀ h0, hh = some h0 → h + 1 < h0 → rest = [] → T.initCoinRandom = true → acc'.peek = acc.peek := by
+            intro h0 e hl hr hfl
+            rw [hpeek', ha.coins h0 e, hdg hr hfl]
+            have : (some (h + 1) == some h0) = false := by simp; omega
+            simp [this, Acc.peek]
+          have hn2 : ∀ h0, hh = some h0 → h + 1 = h0 → rest = [] → T.initCoinRandom = true → acc'.peek = !acc.peek := by
+            intro h0 e hl hr hfl
+            rw [hpeek', ha.coins h0 e, hdg hr hfl]
+            have : (some (h + 1) == some h0) = true := by simp; omega
+            simp [this, Acc.peek]
+          obtain ⟨rnx, rtail, _⟩ := nextOf_CRel T F hra k h acc.peek acc'.peek rrest hn1 hn2
+          have hd1 : ∀ h0, hh = some h0 → (sortIf0 h c).lgWeight < h0 → ¬ (sortIf0 h c).state % 2 = 1 → A1'.peek = A1.peek := by
             intro h0 e hl hodd
-            rw [hpeek', ha.coins h0 e, hd hodd]
+            rw [hpeekA', rA1.coins h0 e, hd hodd]
             have : (some h == some h0) = false := by simp; omega
             simp [this, Acc.peek]
-          have hd2 : ∀ h0, hh = some h0 → (sortIf0 h c).lgWeight = h0 → ¬ (sortIf0 h c).state % 2 = 1 → acc'.peek = !acc.peek := by
+          have hd2 : ∀ h0, hh = some h0 → (sortIf0 h c).lgWeight = h0 → ¬ (sortIf0 h c).state % 2 = 1 → A1'.peek = !A1.peek := by
             intro h0 e hl hodd
-            rw [hpeek', ha.coins h0 e, hd hodd]
+            rw [hpeekA', rA1.coins h0 e, hd hodd]
             have : (some h == some h0) = true := by simp; omega
             simp [this, Acc.peek]
-          have cr : CompactRel hh ((sortIf0 h c).compact T F (nextOf T F hra k h rest) acc.peek)
-              ((sortIf0 h c').compact T F (nextOf T F hra k h rest') acc'.peek) :=
-            compact_CRel T F acc.peek acc'.peek r1 rnx hnl hd1 hd2 rf3 (by omega) rf2
-          have hbal : ∀ p h0, hh = some h0 → ((sortIf0 h c).compact T F (nextOf T F hra k h rest) acc.peek).oddConst = false →
-              headL p h0 ((sortIf0 h c).compact T F (nextOf T F hra k h rest) acc.peek).cur ((sortIf0 h c').compact T F (nextOf T F hra k h rest') acc'.peek).cur
-                + headL p h0 ((sortIf0 h c).compact T F (nextOf T F hra k h rest) acc.peek).nxt ((sortIf0 h c').compact T F (nextOf T F hra k h rest') acc'.peek).nxt
-                + (headR p h0 (sortIf0 h c) + headR p h0 (nextOf T F hra k h rest))
-              = headL p h0 (sortIf0 h c) (sortIf0 h c') + headL p h0 (nextOf T F hra k h rest) (nextOf T F hra k h rest')
-                + (headR p h0 ((sortIf0 h c).compact T F (nextOf T F hra k h rest) acc.peek).cur + headR p h0 ((sortIf0 h c).compact T F (nextOf T F hra k h rest) acc.peek).nxt) := by
+          have cr : CompactRel hh ((sortIf0 h c).compact T F (nextOf T F hra k h rest acc.peek) A1.peek)
+              ((sortIf0 h c').compact T F (nextOf T F hra k h rest' acc'.peek) A1'.peek) :=
+            compact_CRel T F A1.peek A1'.peek r1 rnx hnl hd1 hd2 rf3 (by omega) rf2
+          have hbal : ∀ p h0, hh = some h0 → ((sortIf0 h c).compact T F (nextOf T F hra k h rest acc.peek) A1.peek).oddConst = false →
+              headL p h0 ((sortIf0 h c).compact T F (nextOf T F hra k h rest acc.peek) A1.peek).cur ((sortIf0 h c').compact T F (nextOf T F hra k h rest' acc'.peek) A1'.peek).cur
+                + headL p h0 ((sortIf0 h c).compact T F (nextOf T F hra k h rest acc.peek) A1.peek).nxt ((sortIf0 h c').compact T F (nextOf T F hra k h rest' acc'.peek) A1'.peek).nxt
+                + (headR p h0 (sortIf0 h c) + headR p h0 (nextOf T F hra k h rest acc.peek))
+              = headL p h0 (sortIf0 h c) (sortIf0 h c') + headL p h0 (nextOf T F hra k h rest acc.peek) (nextOf T F hra k h rest' acc'.peek)
+                + (headR p h0 ((sortIf0 h c).compact T F (nextOf T F hra k h rest acc.peek) A1.peek).cur + headR p h0 ((sortIf0 h c).compact T F (nextOf T F hra k h rest acc.peek) A1.peek).nxt) := by
             intro p h0 e hoc
             subst e
-            exact compact_bal_heads T F p h0 acc.peek acc'.peek r1 rnx hnl (hd1 h0 rfl) (hd2 h0 rfl) (by omega) hoc
-          have hnb := bal_nextOf (hh := hh) T F hra k h rrest
+            exact compact_bal_heads T F p h0 A1.peek A1'.peek r1 rnx hnl (hd1 h0 rfl) (hd2 h0 rfl) (by omega) hoc
+          have hnb := bal_nextOf (hh := hh) T F hra k h acc.peek acc'.peek rrest
           have hsb := fun p h0 => heads_sort p h0 h c c'
-          generalize (sortIf0 h c).compact T F (nextOf T F hra k h rest) acc.peek = res at cr hL sp hbal
-          generalize (sortIf0 h c').compact T F (nextOf T F hra k h rest') acc'.peek = res' at cr hbal
-          have hctr : ctrAfter (ctrGrow T ctr rest'.isEmpty (nextOf T F hra k h rest')) res' = ctrAfter (ctrGrow T ctr rest.isEmpty (nextOf T F hra k h rest)) res := by
-            simp only [ctrAfter, ctrGrow, hemp, rnx.nomCap T, cr.num, cr.capNew, cr.capOld]
-          have hacc : AccRel L hh (acc.afterCompact (sortIf0 h c).lgWeight res.fresh res.oddConst res.rangeOk)
-              (acc'.afterCompact (sortIf0 h c').lgWeight res'.fresh res'.oddConst res'.rangeOk) := by
-            rw [r1.lg, cr.fresh, cr.oddConst, cr.rangeOk]; exact afterCompact_AccRel _ _ _ _ ha
+          generalize (sortIf0 h c).compact T F (nextOf T F hra k h rest acc.peek) A1.peek = res at cr hL sp hbal
+          generalize (sortIf0 h c').compact T F (nextOf T F hra k h rest' acc'.peek) A1'.peek = res' at cr hbal
+          have hctr : ctrAfter (ctrGrow T ctr rest.isEmpty (nextOf T F hra k h rest' acc'.peek)) res' = ctrAfter (ctrGrow T ctr rest.isEmpty (nextOf T F hra k h rest acc.peek)) res := by
+            simp only [ctrAfter, ctrGrow, rnx.nomCap T, cr.num, cr.capNew, cr.capOld]
+          have hacc : AccRel L hh (A1.afterCompact (sortIf0 h c).lgWeight res.fresh res.oddConst res.rangeOk)
+              (A1'.afterCompact (sortIf0 h c').lgWeight res'.fresh res'.oddConst res'.rangeOk) := by
+            rw [r1.lg, cr.fresh, cr.oddConst, cr.rangeOk]; exact afterCompact_AccRel _ _ _ _ rA1
           rw [hctr]
           split
           · refine ⟨⟨cr.cur, cr.nxt, rtail⟩, rfl, hacc, ?_⟩
             intro p h0 e hodd
-            have ho := ((afterCompact_acc acc (sortIf0 h c).lgWeight res.fresh res.oddConst res.rangeOk).2.2.2 hodd).2
+            have ho := ((afterCompact_acc A1 (sortIf0 h c).lgWeight res.fresh res.oddConst res.rangeOk).2.2.2 hodd).2
             have hb := hbal p h0 e ho
             obtain ⟨n1, n2⟩ := hnb p h0
             obtain ⟨s1, s2⟩ := hsb p h0
@@ -252,9 +320,9 @@ theorem compressLoop_rel {T : Tun} (hT : TunOK T) (F : SecFns ρ) (hra : Bool) (
             refine ⟨⟨cr.cur, IH.1⟩, IH.2.1, IH.2.2.1, ?_⟩
             intro p h0 e hodd
             have hodd2 := (compressLoop_acc T F hra k fuel (h + 1) (res.nxt :: rest.tail)
-              (ctrAfter (ctrGrow T ctr rest.isEmpty (nextOf T F hra k h rest)) res)
-              (acc.afterCompact (sortIf0 h c).lgWeight res.fresh res.oddConst res.rangeOk)).2.2.2 hodd
-            have ho := ((afterCompact_acc acc (sortIf0 h c).lgWeight res.fresh res.oddConst res.rangeOk).2.2.2 hodd2).2
+              (ctrAfter (ctrGrow T ctr rest.isEmpty (nextOf T F hra k h rest acc.peek)) res)
+              (A1.afterCompact (sortIf0 h c).lgWeight res.fresh res.oddConst res.rangeOk)).2.2.2 hodd
+            have ho := ((afterCompact_acc A1 (sortIf0 h c).lgWeight res.fresh res.oddConst res.rangeOk).2.2.2 hodd2).2
             have hb := hbal p h0 e ho
             have hi := IH.2.2.2 p h0 e hodd
             obtain ⟨n1, n2⟩ := hnb p h0
